@@ -742,6 +742,17 @@ impl ZmtpEngine {
       }
 
       let is_more = msg.is_more();
+      // A FrameBatch holds at most 255 frames (VecU8-backed): close the connection on a longer
+      // multipart message instead of panicking in `push`.
+      if self.partial_batch.len() >= u8::MAX as usize {
+        self.phase = ZmtpPhase::Closed;
+        out
+          .app_actions
+          .push(AppAction::PeerError(ZmqError::ProtocolViolation(
+            "Multipart message exceeds the supported maximum of 255 frames".into(),
+          )));
+        return;
+      }
       self.partial_batch.push(msg);
       if !is_more {
         let batch = std::mem::replace(&mut self.partial_batch, FrameBatch::new());
